@@ -1049,7 +1049,22 @@ func c13R3(c *Ctx) {
 	// (d) the Accept header of reference operations is built from the same option with the same default list
 	accs := c13FuncsWhere(c.P, c13PkgRemote, func(f *ssa.Function) bool {
 		ps, rs := f.Signature.Params(), f.Signature.Results()
-		return f.Parent() == nil && f.Signature.Recv() == nil && ps.Len() == 1 && c13IsStrSlice(ps.At(0).Type()) && rs.Len() == 1 && types.Identical(rs.At(0).Type(), types.Typ[types.String])
+		if !(f.Parent() == nil && f.Signature.Recv() == nil && !f.Signature.Variadic() && ps.Len() == 1 && c13IsStrSlice(ps.At(0).Type()) && rs.Len() == 1 && types.Identical(rs.At(0).Type(), types.Typ[types.String])) {
+			return false
+		}
+		// its result is used as the value of an Accept header somewhere in the package
+		for _, g := range c.P.FuncsOfPkg(c13PkgRemote) {
+			for _, set := range CallsTo(g, "(net/http.Header).Set", "(net/http.Header).Add") {
+				if k, ok := constString(set.Common().Args[1]); ok && k == "Accept" {
+					for _, r := range Roots(set.Common().Args[2]) {
+						if call, isCall := r.(*ssa.Call); isCall && StaticCallee(call) == f {
+							return true
+						}
+					}
+				}
+			}
+		}
+		return false
 	})
 	okAcc, whyAcc := len(accs) > 0, "no Accept-header builder func([]string) string found"
 	nCalls := 0
@@ -1163,6 +1178,87 @@ func c13ParamIsURLBuilder(prm *ssa.Parameter) bool {
 	return callers > 0
 }
 
+// c13MapOfURLBuilders: m is a map (a local literal or a package-level table
+// initialised once) every entry of which is a URL builder function.
+func c13MapOfURLBuilders(m ssa.Value) bool {
+	var updates []*ssa.MapUpdate
+	collect := func(mk ssa.Value) {
+		if mk.Referrers() == nil {
+			return
+		}
+		for _, r := range *mk.Referrers() {
+			if mu, ok := r.(*ssa.MapUpdate); ok && mu.Map == mk {
+				updates = append(updates, mu)
+			}
+		}
+	}
+	for _, r := range Roots(m) {
+		switch u := r.(type) {
+		case *ssa.MakeMap:
+			collect(u)
+		case *ssa.UnOp: // load of a package-level table
+			g, ok := u.X.(*ssa.Global)
+			if !ok || u.Op != token.MUL {
+				return false
+			}
+			stores := 0
+			for _, fn := range []*ssa.Function{g.Pkg.Func("init")} {
+				if fn == nil {
+					continue
+				}
+				AllInstrs(fn, func(in ssa.Instruction) {
+					if st, ok := in.(*ssa.Store); ok && st.Addr == ssa.Value(g) {
+						stores++
+						for _, sr := range Roots(st.Val) {
+							if mk, ok := sr.(*ssa.MakeMap); ok {
+								collect(mk)
+							}
+						}
+					}
+				})
+			}
+			if stores != 1 || c13ProgForURL == nil {
+				return false
+			}
+			// the table is never written elsewhere
+			for _, f := range c13ProgForURL.FuncsOfPkg(c13PkgRemote) {
+				written := false
+				AllInstrs(f, func(in ssa.Instruction) {
+					switch x := in.(type) {
+					case *ssa.Store:
+						if x.Addr == ssa.Value(g) {
+							written = true
+						}
+					case *ssa.MapUpdate:
+						for _, mr := range Roots(x.Map) {
+							if ld, ok := mr.(*ssa.UnOp); ok && ld.X == ssa.Value(g) {
+								written = true
+							}
+						}
+					}
+				})
+				if written {
+					return false
+				}
+			}
+		default:
+			return false
+		}
+	}
+	if len(updates) == 0 {
+		return false
+	}
+	for _, mu := range updates {
+		for _, vr := range Roots(mu.Value) {
+			f, ok := strip(vr).(*ssa.Function)
+			if !ok || !c13IsURLBuilder(f) {
+				return false
+			}
+		}
+	}
+	return true
+}
+
 // c13URLSource classifies where a URL string comes from.
 // "" = not recognised.
 func c13URLSource(v ssa.Value) (kinds map[string]bool, params []*ssa.Parameter, unknown ssa.Value) {
@@ -1204,6 +1300,9 @@ func c13URLSource(v ssa.Value) (kinds map[string]bool, params []*ssa.Parameter, 
 					n++
 					if prm, isParam := fr.(*ssa.Parameter); isParam && c13ParamIsURLBuilder(prm) {
 						continue // a func-typed parameter for which every caller passes a URL builder
+					}
+					if lk, isLookup := fr.(*ssa.Lookup); isLookup && c13MapOfURLBuilders(lk.X) {
+						continue // picked from a table all of whose entries are URL builders
 					}
 					g, ok := fr.(*ssa.Function)
 					if !ok || !c13IsURLBuilder(g) {
